@@ -57,7 +57,14 @@ second round and `m5`/`m6` a third round (again two per property, all 20 propert
 `m7`/`m8` a fourth round for C01, C03, C04, C08, C10, C12, C13 and C17 and a fifth round
 for C06, C07, C09, C11, C14, C15, C16 and C18, each on the tree with the `fix:` commits of
 the time.
-The raw logs of the confirmation runs are in `seeded/logs/`.
+The raw logs of the confirmation runs are in `seeded/logs/`. After the two repairs of the
+fifth round (`/repo` HEAD 8b7f35b) every stored patch was checked to apply to that tree
+(`C08-m6` and `C18-m6` were re-based by hand, `REBASE_NOTE.txt`), and 63 changes were
+confirmed again from scratch on it (`seeded/logs/reconf_r5_*.log`: demo 0 on the unchanged
+tree, tests pass, demo 1, quick check reports it - all 63 reported); the session
+ended before the remaining ones were re-run, their `meta.json` is from the previous full
+confirmation on 006e171 (the two repairs touch `Quantity.__new__`'s parse-with-unit branch
+and one condition of `new_unit` only).
 
 {det} of {n} confirmed changes are reported by the quick tier of the check of their own
 property - *after* the strengthening described below the table. At first sight the checks
